@@ -152,7 +152,13 @@ func TraceLines(s *Scenario) [][]byte {
 	}
 	for _, ev := range s.Result.Events {
 		switch ev.E {
-		case "Start", "End":
+		case "Start":
+			if len(ev.CF) > 0 {
+				add(map[string]any{"e": ev.E, "p": ev.P, "cf": ev.CF})
+			} else {
+				add(map[string]any{"e": ev.E, "p": ev.P})
+			}
+		case "End":
 			add(map[string]any{"e": ev.E, "p": ev.P})
 		case "Err":
 			add(map[string]any{"e": "Err", "p": ev.P, "c": ev.T})
